@@ -100,7 +100,15 @@ class GridDriver:
         fn = w.get_moore_neighbours if kind == "moore" else w.get_neumann_neighbours
 
         def pc(off):
-            return PositionComponent(None, None, c[0] + off, c[1] + off, c[2] + off)
+            # the SAME component object for every query of this world, moved to the queried cell (like an agent's
+            # position component after move / move_to); every third query uses a fresh object instead
+            self.nq = getattr(self, "nq", 0) + 1
+            if self.nq % 3 == 0:
+                return PositionComponent(None, None, c[0] + off, c[1] + off, c[2] + off)
+            if getattr(self, "_pc", None) is None:
+                self._pc = PositionComponent(None, None, 0, 0, 0)
+            self._pc.x, self._pc.y, self._pc.z = c[0] + off, c[1] + off, c[2] + off
+            return self._pc
 
         def tup(call):
             try:
@@ -118,9 +126,11 @@ class GridDriver:
                 tup(lambda: fn(pc(0.0), r, inc, tuple)), tup(lambda: fn(pc(0.25), r, inc, tuple)),
                 tup(lambda: fn(pc(0.75), r, inc, tuple)),
                 tup(lambda: w.get_neighbours(cid, r, inc, tuple, kind)),
+                tup(lambda: w.get_neighbours(pc(0.5), r, inc, tuple, kind)),
                 tup(lambda: w.get_neighbours(tuple(c), radius=r, incl_center=inc, ret_type=tuple, mode=kind))]
         idl = [ids(lambda: fn(cid, r, inc)), ids(lambda: fn(tuple(c), r, inc, int)), ids(lambda: fn(pc(0.75), r, inc, int)),
-               ids(lambda: w.get_neighbours(tuple(c), r, inc, int, kind)), ids(lambda: w.get_neighbours(cid, r, inc, mode=kind))]
+               ids(lambda: w.get_neighbours(tuple(c), r, inc, int, kind)), ids(lambda: w.get_neighbours(cid, r, inc, mode=kind)),
+               ids(lambda: w.get_neighbours(pc(0.25), r, inc, int, kind))]
         self.events.append({"op": "neigh", "c": list(c), "r": r, "kind": kind, "inc": bool(inc), "tup": tups, "ids": idl})
 
     def op_add(self, name, kind, k):
@@ -215,6 +225,10 @@ def c09_programs(max_ext):
             prog = [["grid", cls, s], ["add", "p", "callable", 3], ["add", "q", "list", 1]]
             prog += [["id_of", c] for c in cells(s)]
             prog += [["get_cell", c] for c in probe(s)]
+            # the row must be the cell's CURRENT row: look every cell up again after components were removed / replaced
+            prog += [["remove", "p"]] + [["get_cell", c] for c in cells(s)]
+            prog += [["add", "q", "constant", 8], ["add", "r", "callable", 1]] + [["get_cell", c] for c in cells(s)]
+            prog += [["remove", "q"], ["remove", "nope"]] + [["get_cell", c] for c in cells(s)]
             out.append(prog)
     return out
 
